@@ -80,6 +80,9 @@ func VerifC01Tags() {
 		}
 	}
 	h := c01Hostile(k)
+	if k == 5 && t == c01TagTemplates[7] {
+		h = "no such {% file" // path functions are native: concrete strings only
+	}
 	out, err := vRender(t, Bindings{"h": h})
 	nd.Assert(err == nil || out == "", "output-or-error")
 	nd.Reach("C01.tags")
